@@ -1418,6 +1418,8 @@ def partner(x, rng, kind):
 @recipe("align")
 def r_align(x, rng):
     if hasattr(x, "site_ind_id"):
+        if isinstance(x, Q().PEPS3D) or rng.integers(0, 3) == 0:
+            return Call(partner(x, rng, "vec"))
         return Call(partner(x, rng, "op"))
     if rng.integers(0, 2):
         return Call(partner(x, rng, "vec"))
@@ -1633,4 +1635,8 @@ for _s in ("xmin", "xmax", "ymin", "ymax"):
 # (class, name) pairs that are deliberately not exercised, with the reason
 SKIP = {
     ("PEPS3D", "gate_with_op_lazy"): "no 3D operator class to build the argument from",
+    ("PEPS", "retag_all"): "both spellings raise IndexError for a 2-placeholder id (TensorNetworkGen.retag_sites formats the new id "
+                           "with the coordinate tuple as ONE argument) - a defect, but not one of C03",
+    ("PEPO", "retag_all"): "as PEPS.retag_all",
+    ("PEPS3D", "retag_all"): "as PEPS.retag_all",
 }
